@@ -287,6 +287,10 @@ def rule_presence(S, res, phases, cs):
                     continue
                 n += 1
                 okc, _ = edge_fail_closed(b, bi, none_t)
+                # inside a closure that itself returns an Option (`filter_map(|..| { let s = slot?; .. })`) the None
+                # edge does not fail anything: the element is silently left out
+                if b.locals[0]["ty"].startswith("core::option::Option<") and b.id != b.owner:
+                    okc = False
                 if not okc:
                     bad.append((b, bi))
         inst = "%s|presence" % l
@@ -926,3 +930,92 @@ def rule_check_before_send(S, res, phases, cs):
     res.count("sends_computed_from_checked_messages", n)
     if not bad and not n:
         res.ok("R2.9", "engine", "", "no send payload is computed from a message with demanded checks")
+
+
+def rule_conjunct(S, res, phases, cs):
+    """R2.10: in a compound abort condition every equality comparison of received data rejects on its own.
+    `a != x || b != y` does; `a != x && b != y` accepts a message in which only one of the two values is wrong.
+    The mismatch edge of such a comparison may lead on to another comparison only if that one looks at the
+    same received value again (alternatives: `v == Some((true, l ^ d)) || v == Some((false, l))`)."""
+    fg = S.fg
+    all_comp = set()
+    for l, d in S.comp.items():
+        if OBL.get(l, {}).get("phase") in phases or l == "decrypt":
+            all_comp |= set(d.keys())
+    check_blocks = {(c.bk, c.block): c for c in cs}
+    n = 0
+    bad = 0
+    bodies = {x[0] for x in all_comp if x[0] != "F"}
+    for bk in sorted(bodies):
+        b = fg.bodies[bk]
+        live = b.live_blocks()
+        cmps = {}      # switch block -> (mismatch target, match target, component nodes)
+        for bi, blk in enumerate(b.blocks):
+            t = blk["t"]
+            if t["k"] != "switch" or t["o"]["k"] == "const" or bi not in live or t["o"]["p"]["pr"]:
+                continue
+            sw_l = t["o"]["p"]["l"]
+            tm = {str(v): tb for v, tb in t["ts"]}
+            zero, other = tm.get("0"), t["else"]
+            if zero is None:
+                continue
+            ops = None
+            mism = None
+            for st in blk["s"]:
+                if st["k"] == "assign" and st["p"]["l"] == sw_l and not st["p"]["pr"] and st["r"]["k"] == "bin" and st["r"]["op"] in ("Eq", "Ne"):
+                    ops = [st["r"]["a"], st["r"]["b"]]
+                    mism = other if st["r"]["op"] == "Ne" else zero
+            if ops is None:
+                for pb in b.pred()[bi]:
+                    pt = b.blocks[pb]["t"]
+                    if pt["k"] == "call" and pt["d"]["l"] == sw_l and not pt["d"]["pr"]:
+                        cn = callee_names(pt)
+                        tl = cn[0].rsplit("::", 1)[-1] if cn else ""
+                        if tl in ("eq", "ne") and len(pt["args"]) == 2:
+                            ops = pt["args"]
+                            mism = other if tl == "ne" else zero
+            if ops is None:
+                continue
+            nodes = [x for o in ops if o["k"] != "const" for x in fg.operand_nodes(bk, o)]
+            back = fg.backward(nodes, node_ok=lambda x: x[0] == bk, local=True)
+            comp = {x for x in back if x in all_comp}
+            if not comp:
+                continue
+            # the received values that are compared themselves (not values computed from them)
+            direct = fg.backward(nodes, node_ok=lambda x: x[0] == bk, edge_ok=lambda e: e.kind in ("copy", "ref", "cast") or (e.kind == "call" and secmod.struct_edge(e)), local=True)
+            dcomp = {x for x in direct if x in all_comp}
+            cmps[bi] = (mism, zero if mism == other else other, dcomp or comp)
+        for bi, (mism, match, comp) in cmps.items():
+            if edge_fail_closed(b, bi, mism)[0]:
+                continue
+            # where does the mismatch edge lead? follow straight-line blocks to the next switch
+            cur = mism
+            nxt = None
+            for _ in range(8):
+                tt = b.blocks[cur]["t"]
+                if tt["k"] == "switch":
+                    nxt = cur
+                    break
+                sc = b.succ()[cur]
+                if len(sc) != 1:
+                    break
+                cur = sc[0]
+            if nxt is None or nxt not in cmps:
+                continue       # not part of a compound check
+            n += 1
+            if cmps[nxt][2] & comp:
+                continue       # the same received value is compared with another acceptable value
+            # the second comparison must be able to reject at all, otherwise this is ordinary logic
+            if not (edge_fail_closed(b, nxt, cmps[nxt][0])[0] or (bk, nxt) in check_blocks):
+                continue
+            labs = set()
+            for x in comp:
+                labs |= S.labels_of(x)
+            bad += 1
+            lab = "/".join(sorted(labs)) or "?"
+            res.bad("R2.10", "%s|%s|conjunct" % (b.owner.rsplit("::", 1)[-1], lab),
+                    "a wrong value in %r is only rejected if a second, different value of the message is wrong as well (the comparisons are joined with `&&`): a message that is wrong in one of them is accepted" % lab, where(b, bi),
+                    key="R2.10|%s|%s" % (b.owner.rsplit("::", 1)[-1], lab))
+    res.count("compound_comparisons_of_message_values", n)
+    if not bad:
+        res.ok("R2.10", "engine", "", "%d comparison(s) of received values that continue into another comparison: each looks at the same value again (alternatives), none needs a second wrong value to reject" % n)
